@@ -130,6 +130,16 @@ def contains(I, cont, x):
         if cont.kind == "keys":
             return contains(I, cont.m, x)
         raise Unsupported("in on dict view")
+    if isinstance(cont, VLocals):
+        c = const_of(x) if isinstance(x, VStr) else _NOCONST
+        if not isinstance(c, str):
+            raise Unsupported("symbolic name looked up in locals()")
+        if cont.env.lookup(c) is not None:
+            return z3.BoolVal(True)
+        if cont.assigned_somewhere(c):
+            I.ver.note_assumption("'name' in locals() for a name first bound inside a cut loop is nondeterministic")
+            return I.path.fresh("locals_has_" + c, z3.BoolSort())
+        return z3.BoolVal(False)
     if isinstance(cont, VDictRec):
         c = const_of(x) if isinstance(x, VStr) else _NOCONST
         if isinstance(c, str):
@@ -195,6 +205,16 @@ def subscript(I, o, k):
             kk = unwrap(k, o.kt)
         except TypeError:
             I.raise_exc("KeyError", "key of wrong type")
+        if getattr(o, "default_e", None) is not None and not I.spec:
+            # collections.defaultdict: reading a missing key inserts the default and yields it (no KeyError)
+            present = z3.Select(o.dom, kk)
+            val = z3.If(present, z3.Select(o.val, kk), o.default_e)
+            o.val = z3.Store(o.val, kk, val)
+            o.dom = z3.Store(o.dom, kk, z3.BoolVal(True))
+            o.card = z3.simplify(o.card + z3.If(present, 0, 1))
+            I.path.assume(o.card >= 1)
+            o.writeback()
+            return o.vt.wrap(val)
         I.require_defined(z3.Select(o.dom, kk), "KeyError", "missing key")
         I.ver.on_map_read(I, o, kk)
         return o.get(kk)
@@ -211,6 +231,17 @@ def subscript(I, o, k):
         for j in range(len(o.items) - 2, -1, -1):
             cur = I.ite(idx == j, o.items[j], cur)
         return cur
+    if isinstance(o, VLocals):
+        c = const_of(k) if isinstance(k, VStr) else _NOCONST
+        if not isinstance(c, str):
+            raise Unsupported("symbolic name looked up in locals()")
+        v = o.env.lookup(c)
+        if v is not None:
+            return v
+        lt = I.ver.local_type(I, c)
+        if lt is None or not o.assigned_somewhere(c):
+            raise Unsupported("locals()[%r]: unbound name without a declared local type" % c)
+        return I.fresh_value(lt, "locals_" + c)
     if isinstance(o, VDictRec):
         c = const_of(k) if isinstance(k, VStr) else _NOCONST
         if isinstance(c, str):
@@ -400,6 +431,27 @@ class VMapView(V):
     def __init__(self, m, kind):
         self.m = m
         self.kind = kind
+
+
+class VLocals(V):
+    """the result of locals() used as a read-only mapping: `'x' in locals()` / `locals()['x']`.  A name bound in the
+    current activation is present with its value.  A name that is unbound *in the engine's environment* but assigned
+    somewhere in the function (e.g. first bound inside a loop that was cut by an invariant) may or may not be bound
+    in a real execution: membership is then a nondeterministic boolean and its value an arbitrary value of the
+    declared local type.  Any other name is absent."""
+    t = None
+
+    def __init__(self, env, fnode):
+        self.env = env
+        self.fnode = fnode
+
+    def assigned_somewhere(self, name):
+        if self.fnode is None:
+            return True
+        for n in ast.walk(self.fnode):
+            if isinstance(n, ast.Name) and n.id == name and isinstance(n.ctx, ast.Store):
+                return True
+        return False
 
 
 class VRange(V):
@@ -1616,6 +1668,8 @@ def call_bmethod(I, o, name, args, kw):
         f = o.fields[c]
         if isinstance(default, VNone):
             return f
+        if isinstance(default, VEmptyList) and isinstance(f.t.inner, TList):
+            default = VSeq(z3.K(z3.IntSort(), I.default_of(f.t.inner.elem)), z3.IntVal(0), f.t.inner.elem, "list")
         try:
             return I.ite(z3.Not(f.is_none()), f.val(), default)
         except (Unsupported, TypeError):
@@ -1636,11 +1690,24 @@ def call_bmethod(I, o, name, args, kw):
     raise Unsupported("method %s of %s" % (name, type(o).__name__))
 
 
+def resolve_optionals(I, v, t):
+    """an Optional value stored where a non-Optional is expected (its None-ness was tested before, e.g. by isinstance):
+    resolve it on this path (fork; the None side is normally infeasible) -- also inside tuples"""
+    if I.spec:
+        return v
+    if isinstance(v, VOpt) and not isinstance(t, TOpt):
+        return I.force(v)
+    if isinstance(v, VTuple) and isinstance(t, TTuple) and len(v.items) == len(t.elems) and \
+            any(isinstance(x, VOpt) and not isinstance(et, TOpt) for x, et in zip(v.items, t.elems)):
+        return VTuple([resolve_optionals(I, x, et) for x, et in zip(v.items, t.elems)])
+    return v
+
+
 def seq_method(I, o, name, args, kw):
     p = I.path
     i = z3.Int("sm_i")
     if name == "append":
-        o.arr = z3.Store(o.arr, o.n, unwrap(args[0], o.et))
+        o.arr = z3.Store(o.arr, o.n, unwrap(resolve_optionals(I, args[0], o.et), o.et))
         o.n = z3.simplify(o.n + 1)
         o.writeback()
         return VNone()
